@@ -103,6 +103,9 @@ def enumerated(tier, seed):
         out.append({"loader": "marginal", "path": path, "sizes": [2, 4, 4], "seed": seed + 4,
                     "bounds": [[0, 3], [0, 2], [0, 4]], "marginals": [{"kind": "poisson", "m": 2.0}, {"kind": "poisson", "m": 1.0},
                                                                       {"kind": "poisson", "m": 0.3}]})
+    # a large direct-mode box (3 x 64 degrees = 262144 joint degrees): still the exact normalised product
+    out.append({"loader": "marginal", "path": "class", "sizes": [2, 3, 4], "seed": seed + 5,
+                "bounds": [[0, 64], [0, 64], [0, 64]], "marginals": [t(21), t(22), t(23)]})
     return out
 
 
